@@ -73,6 +73,21 @@ def step (w : World) (toks : List String) : World × String :=
     match i.toNat?, b.toNat?, lip.toNat?, lport.toNat?, ip.toNat?, port.toNat? with
     | some i, some b, some lip, some lport, some ip, some port => (w.relan i b ⟨lip, lport⟩ ⟨ip, port⟩, "ok")
     | _, _, _, _, _, _ => bad
+  | ["tracker", i] =>
+    match i.toNat? with
+    | some i =>
+      match w.nodes[i]? with
+      | some n => ({ w with nodes := w.nodes.set i { n with isTracker := true } }, "ok")
+      | none => bad
+    | none => bad
+  | ["rwstep", i, sv, now, ip, port] =>
+    match i.toNat?, sv.toNat?, now.toNat?, ip.toNat?, port.toNat? with
+    | some i, some sv, some now, some ip, some port =>
+      let pk : Option Addr := if ip == 0 && port == 0 then none else some ⟨ip, port⟩
+      match (w.rwStep i sv now pk) with
+      | some _ => traced w (fun w => (w.rwStep i sv now pk).getD w)
+      | none => (w, "bad-pick")
+    | _, _, _, _, _ => bad
   | ["restart", i] =>
     match i.toNat? with
     | some i => (w.restart i, "ok")
